@@ -599,6 +599,38 @@ theorem C08_geo_pairs_overlap (C : Nat) (X : Matching.Mat) (tb fb : Rat) (preds 
   · intro e he hp
     exact C08_unpaired_zero C (evPreds preds) (evAnns anns) (out.map ofMatching) es hc hes e he hp
 
+/-- **Pairs without closed form are credited on the measurement alone** (follow-up, wave 5).
+    `X` is the affinity matrix measured outside the model for geometry types without closed
+    form (points, lines, polygons — with or without holes); since this follow-up it comes from
+    an oracle that shares no code with the library (shapes built from the coordinates).  For
+    every answer of the assignment solver that is a partial injection the matcher answers, and
+    a reported pair `(i, j)` of which at least one geometry has no closed form reports exactly
+    `X i j`, and `X i j` is positive: where the oracle measures no overlap (a box inside a hole
+    of a polygon) the model never pairs, whatever the solver proposed. -/
+theorem C08_measured_pairs (X : Matching.Mat) (tb fb : Rat) (src tgt : List Geom) (pairs : List (Nat × Nat))
+    (hv : SE.Proofs.C07.ValidAssignment src.length tgt.length pairs) :
+    ∃ out, matchGeo X tb fb src tgt pairs = .ok out ∧
+      ∀ e ∈ out, ∀ i j g1 g2, e.src = some i → e.tgt = some j → src[i]? = some g1 → tgt[j]? = some g2 →
+        (closed g1 && closed g2) = false → e.aff = X i j ∧ 0 < X i j := by
+  have hout := SE.Proofs.C07.C07_total src.length tgt.length (affEntry X tb fb src tgt) pairs hv
+  refine ⟨_, by unfold matchGeo; rw [hout], ?_⟩
+  intro e he i j g1 g2 hi hj h1 h2 hc
+  obtain ⟨e0, he0, rfl⟩ := List.mem_map.mp he
+  have hrep := SE.Proofs.C07.C07_reported_affinity _ _ _ pairs _ hv hout e0 he0 i j hi hj
+  have hpos := (SE.Proofs.C07.C07_positive_pairs _ _ _ pairs _ hv hout e0 he0 i j hi hj).1
+  have hX : affEntry X tb fb src tgt i j = X i j := by
+    unfold affEntry
+    simp [h1, h2, hc]
+  rw [hX] at hrep hpos
+  exact ⟨hrep, hpos⟩
+
+/-- non-vacuity of `C08_measured_pairs`: a box against a polygon, measured 1/4, proposed by the
+    solver: reported with 1/4; measured 0 (the box lies in a hole): not paired -/
+example : matchGeo (fun _ _ => 1/4) (1/100) 100 [.boundingBox 1 1000 2 2000]
+    [.polygon [[(0, 0), (4, 0), (4, 4000), (0, 0)]]] [(0, 0)] = .ok [⟨some 0, some 0, 1/4⟩] := by decide +kernel
+example : matchGeo (fun _ _ => 0) (1/100) 100 [.boundingBox 1 1000 2 2000]
+    [.polygon [[(0, 0), (4, 0), (4, 4000), (0, 0)]]] [(0, 0)] = .ok [⟨some 0, none, 0⟩, ⟨none, some 0, 0⟩] := by decide +kernel
+
 /-- **What the judge means.**  `judgePairs`, which the check evaluates in Lean on the matches
     `sound_event_detection` really returned together with the geometries of the input, holds
     exactly when every two-sided match is between two sound events that have a geometry and
